@@ -120,3 +120,33 @@ target(P + "add_if_new",
 assume_note("the ref store is only changed through transport.put_bytes / transport.delete / _remove_packed_ref; "
             "transport.put_bytes replaces the file atomically")
 undecided("two updaters interleaving between the comparison and the write (no file lock is taken by TransportRefsContainer)")
+
+# ---- the caller that pushes refs: every update is conditional on the snapshot taken before fetching
+OLD_REFS = MapS(BYTES, Tup(Opt(BYTES), ANY))
+assumed("self.target_refs.add_if_new", result=BOOL,
+        requires=lambda c: Not(In(c.args[0], c.old_refs)),
+        note="only for refs that were absent from the snapshot")
+assumed("self.target_refs.set_if_equals", result=BOOL,
+        requires=lambda c: And(In(c.args[0], c.old_refs), eq(c.args[1], c.old_refs[c.args[0]][0])),
+        note="the expected value is the snapshot's value for that ref")
+assumed("self.target_refs.set_symbolic_ref", result=NONE)
+assumed("self.mapping.revision_id_foreign_to_bzr", pure=True)
+
+
+def is_symref(c):
+    return And(Len(c.old.gitid) >= 5, c.old.gitid[0:5] == lift(b"ref: "))
+
+
+target("breezy/git/interrepo.py::InterToLocalGitRepository.fetch_refs",
+       block=dict(stmt="If", contains=r"^\s*if gitid\.startswith\(SYMREF\)"),
+       params=dict(old_refs=OLD_REFS, name=BYTES, gitid=BYTES, result_refs=MapS(BYTES, Tup(BYTES, ANY)), revid=ANY, lossy=BOOL),
+       ensures={"conditional_on_snapshot": lambda c: If(
+           is_symref(c),
+           lift(c.calls("self.target_refs.set_if_equals") == 0 and c.calls("self.target_refs.add_if_new") == 0),
+           If(In(c.old.name, c.old.old_refs),
+              lift(c.calls("self.target_refs.set_if_equals") == 1 and c.calls("self.target_refs.add_if_new") == 0),
+              lift(c.calls("self.target_refs.add_if_new") == 1 and c.calls("self.target_refs.set_if_equals") == 0)))},
+       raises={"Exception": True},
+       equivalent_mutants={r"drop:Expr.*set_symbolic_ref": "symbolic refs are not conditional updates: outside the property",
+                           r"drop:Assign.*result_refs\[name\] = ": "the reported result map is outside the property"},
+       note="block contract: the per-ref update inside the loop of fetch_refs")
